@@ -167,3 +167,55 @@ def row_labels(rows):
     if is_exc(rows):
         return rows
     return sorted(Counter(tuple(Q.norm(v) for v in r) for r in rows).items())
+
+
+# ------------------------------------------------------------------------------------------------
+# multi-variable vocabulary: x over DA, y over DB, z over DC (class Item); y.ref points into DA
+# ------------------------------------------------------------------------------------------------
+def rich_world():
+    da = ((("p", 1), ("q", 1)), (("p", 2), ("q", 1)), (("p", 3), ("q", 2)), (("p", 2), ("q", 3)))
+    db = ((("p", 1), ("q", 2), ("ref", ("@", "DA", 0)), ("t", (1, 2))),
+          (("p", 1), ("q", 3), ("ref", ("@", "DA", 2)), ("t", (3,))),
+          (("p", 2), ("q", 2), ("ref", ("@", "DA", 1)), ("t", (2, 3))),
+          (("p", 3), ("q", 1), ("ref", ("@", "DA", 1)), ("t", (1,))))
+    dc = ((("p", 2), ("q", 1)), (("p", 3), ("q", 3)), (("p", 1), ("q", 2)))
+    return (("DA", "Item", da), ("DB", "Item", db), ("DC", "Item", dc))
+
+
+VARS3 = (("x", "let", "Item", "DA"), ("y", "let", "Item", "DB"), ("z", "let", "Item", "DC"))
+VARS2 = VARS3[:2]
+VARS_SELF = (("x", "let", "Item", "DA"), ("y", "let", "Item", "DA"))      # self-join: two variables, one domain
+
+
+def leaves_xy():
+    xp, xq, yp, yq = A(X, "p"), A(X, "q"), A(Y, "p"), A(Y, "q")
+    return [
+        ("cmp", "eq", xp, yp), ("cmp", "eq", yp, xp), ("cmp", "lt", xq, yq), ("cmp", "ge", yq, xp),
+        ("cmp", "ne", xp, yq), ("cmp", "gt", xp, L(1)), ("cmp", "eq", yq, L(2)),
+        ("cmp", "eq", A(A(Y, "ref"), "p"), xp), ("cmp", "eq", A(Y, "ref"), X), ("cmp", "ne", X, A(Y, "ref")),
+        ("in", xp, A(Y, "t")), ("has", A(Y, "t"), xq),
+        ("pf", "p_lt", (X, Y)), ("pc", "PLt", (X, Y)),
+    ]
+
+
+def leaves_xyz():
+    return leaves_xy()[:7] + [("cmp", "eq", A(Y, "p"), A(Z, "p")), ("cmp", "ne", A(X, "p"), A(Z, "q")),
+                              ("cmp", "ge", A(Z, "q"), L(2))]
+
+
+def leaves_self():
+    """x, y over the same domain"""
+    return [("cmp", "ne", X, Y), ("cmp", "eq", X, Y), ("cmp", "lt", A(X, "p"), A(Y, "p")),
+            ("cmp", "eq", A(X, "q"), A(Y, "q")), ("cmp", "gt", A(X, "p"), L(1))]
+
+
+XY_REP = [("cmp", "eq", A(X, "p"), A(Y, "p")), ("cmp", "lt", A(X, "q"), A(Y, "q")), ("cmp", "gt", A(X, "p"), L(1)),
+          ("cmp", "eq", A(Y, "q"), L(2))]
+
+
+def tiny_domains(max_size, values=((1, 1), (1, 2), (2, 1), (2, 2))):
+    """every multiset of <= max_size rows over the 2x2 value grid (incl. the empty domain)"""
+    import itertools
+    for n in range(0, max_size + 1):
+        for combo in itertools.combinations_with_replacement(values, n):
+            yield tuple((("p", p), ("q", q)) for p, q in combo)
